@@ -101,10 +101,11 @@ func (k *check) straceStore(home, dir string, g *crashGroup, injects ...string) 
 	b, _ := os.ReadFile(trace)
 	lastCall := ""
 	for _, line := range strings.Split(string(b), "\n") {
-		f := strings.SplitN(line, " ", 2)
+		f := strings.SplitN(strings.TrimLeft(line, " "), " ", 2)
 		if len(f) < 2 {
 			continue
 		}
+		f[1] = strings.TrimLeft(f[1], " ") // the pid column is padded when pids differ in width
 		if strings.Contains(f[1], "killed by SIGKILL") {
 			res.killed = true
 			if strings.Contains(lastCall, "build_cache") {
